@@ -100,9 +100,27 @@ class C01(Plugin):
             out.append({"markup": m, "fragment": False, "container": "div", "scripting": False, "ns": True})
         for c, m in gen_markup.fragment_directed(gen_markup.dispatch_keys()):
             out.append({"markup": m, "fragment": True, "container": c, "scripting": False, "ns": True})
+        # end tags with attributes, scope closers with elements in between, namespaced attributes
+        for i, m in enumerate(gen_markup.closers_directed(gen_markup.dispatch_keys()) + gen_markup.reopen_directed() +
+                              gen_markup.foreign_attrs_directed()):
+            out.append({"markup": m, "fragment": i % 7 == 0, "container": "div", "scripting": False, "ns": i % 5 != 0})
         # foreign elements with HTML names + integration points: every name-only test meets a foreign namesake
         for i, m in enumerate(gen_markup.foreign_directed()):
             out.append({"markup": m, "fragment": False, "container": "div", "scripting": False, "ns": i % 5 != 0})
+        # adoption agency: the outer loop runs at most 8 times, the inner loop leaves the list alone for 3 steps --
+        # formatting element, k nested special elements (outer), j formatting elements in between (inner)
+        for f in ("b", "a", "nobr", "font"):
+            for k in range(0, 12):
+                for j in (0, 1, 2, 3, 4, 5):
+                    for blk in ("div", "p", "li"):
+                        if blk != "div" and (k > 9 or j > 3):
+                            continue
+                        inner = "".join("<%s>" % g for g in ("i", "u", "s", "em", "tt")[:j])
+                        m = "<%s>" % f + inner + ("<%s>" % blk) * k + "x</%s>y" % f
+                        out.append({"markup": m, "fragment": False, "container": "div", "scripting": False, "ns": True})
+                        if k in (7, 8, 9) and blk == "div":
+                            out.append({"markup": "<table><td>" + m, "fragment": False, "container": "div", "scripting": False, "ns": True})
+                            out.append({"markup": m + "</div>z</%s>w" % f, "fragment": True, "container": "div", "scripting": False, "ns": True})
         # formatting elements that differ only in attribute values / names (Noah's Ark, adoption agency)
         for f in ("b", "a", "font", "nobr"):
             for attrs in (["class=a", "class=b", "class=c", "class=d"], ["class=a"] * 4, ["id=a", "class=a", "id=a", "id=a title=t"],
